@@ -150,6 +150,8 @@ pub struct Decision {
     pub exact_args: Option<[[i64; 3]; 5]>,
     /// Final value compared with `0.`.
     pub clip: f64,
+    /// The half space being clipped with: index of its right generator and periodic shift.
+    pub plane: (Option<usize>, Option<DVec3>),
 }
 
 static TRACE: Mutex<Option<Vec<Decision>>> = Mutex::new(None);
@@ -173,6 +175,7 @@ pub(crate) fn trace_decision(
     filter: f64,
     exact_args: Option<[[i64; 3]; 5]>,
     clip: f64,
+    plane: (Option<usize>, Option<DVec3>),
 ) {
     if let Ok(mut guard) = TRACE.lock() {
         if let Some(t) = guard.as_mut() {
@@ -182,6 +185,7 @@ pub(crate) fn trace_decision(
                 filter,
                 exact_args,
                 clip,
+                plane,
             });
         }
     }
